@@ -18,6 +18,7 @@ import (
 	"hash"
 	"hash/crc32"
 	"math"
+	"math/big"
 	"reflect"
 	"sort"
 	"strconv"
@@ -178,13 +179,58 @@ func newPayload(ptype string) any {
 func audOf(ptype string) string { return reflect.TypeOf(newPayload(ptype)).Elem().String() }
 
 const bigWSID = istructs.WSID(140737488486400)
+const clusterWSID = istructs.WSID(9147936743227393) // cluster 65 in the high bits: not a float64 integer
+
+// the integer fields of a payload as it was handed to IssueToken: Coq pairs (name, value)
+func issuedInts(pl any) string {
+	b, _ := json.Marshal(pl)
+	m, _ := decodeClaims(b)
+	keys := make([]string, 0, len(m))
+	for k := range m {
+		keys = append(keys, k)
+	}
+	sort.Strings(keys)
+	var items []string
+	for _, k := range keys {
+		if n, ok := m[k].(json.Number); ok {
+			if z, ok := new(big.Int).SetString(string(n), 10); ok {
+				items = append(items, fmt.Sprintf("(%s, (%s)%%Z)", bs(k), z.String()))
+			}
+		}
+	}
+	return kit.List(items)
+}
+
+func hasIntAbove2p53(pl any) bool {
+	b, _ := json.Marshal(pl)
+	m, _ := decodeClaims(b)
+	lim := new(big.Int).Lsh(big.NewInt(1), 53)
+	for _, v := range m {
+		if n, ok := v.(json.Number); ok {
+			if z, ok := new(big.Int).SetString(string(n), 10); ok && z.CmpAbs(lim) > 0 {
+				return true
+			}
+		}
+	}
+	return false
+}
 
 // payload values of every type; variant numbers are part of the replay description
 func makePayload(ptype string, v int) any {
 	q := appdef.NewQName
 	switch ptype {
 	case "principal":
-		switch v % 5 {
+		switch v % 10 {
+		case 5: // integers float64 cannot hold: one above 2^53, a workspace ID with cluster bits set, the largest uint64
+			return &payloads.PrincipalPayload{Login: "big", SubjectKind: istructs.SubjectKind_User, IsAPIToken: true, ProfileWSID: 1<<53 + 1}
+		case 6:
+			return &payloads.PrincipalPayload{Login: "cluster65", SubjectKind: istructs.SubjectKind_User, IsAPIToken: true, ProfileWSID: clusterWSID}
+		case 7:
+			return &payloads.PrincipalPayload{Login: "max", SubjectKind: istructs.SubjectKind_Device, IsAPIToken: true, ProfileWSID: math.MaxUint64}
+		case 8: // and the largest ones it can
+			return &payloads.PrincipalPayload{Login: "2^53", SubjectKind: istructs.SubjectKind_User, IsAPIToken: true, ProfileWSID: 1 << 53}
+		case 9:
+			return &payloads.PrincipalPayload{Login: "2^53-1", SubjectKind: istructs.SubjectKind_User, IsAPIToken: true, ProfileWSID: 1<<53 - 1}
 		case 0:
 			return &payloads.PrincipalPayload{Login: "user1", SubjectKind: istructs.SubjectKind_User}
 		case 1:
@@ -200,11 +246,17 @@ func makePayload(ptype string, v int) any {
 	case "blob":
 		return []any{&payloads.BLOBUploadingPayload{Workspace: 1, BLOB: 2, MaxSize: 3},
 			&payloads.BLOBUploadingPayload{},
-			&payloads.BLOBUploadingPayload{Workspace: bigWSID, BLOB: 200001, MaxSize: math.MaxInt64}}[v%3]
+			&payloads.BLOBUploadingPayload{Workspace: bigWSID, BLOB: 200001, MaxSize: math.MaxInt64},
+			&payloads.BLOBUploadingPayload{Workspace: 1<<53 + 1, BLOB: 2, MaxSize: 3},
+			&payloads.BLOBUploadingPayload{Workspace: clusterWSID, BLOB: 1<<53 + 1, MaxSize: 1<<62 + 1},
+			&payloads.BLOBUploadingPayload{Workspace: math.MaxUint64, BLOB: math.MaxUint64, MaxSize: 1 << 53},
+			&payloads.BLOBUploadingPayload{Workspace: 1 << 53, BLOB: 1<<53 - 1, MaxSize: 1<<53 + 1}}[v%7]
 	case "verified":
 		return []any{&payloads.VerifiedValuePayload{VerificationKind: appdef.VerificationKind_EMail, WSID: 5, ID: 7, Entity: q("app", "doc"), Field: "email", Value: "a@b.c"},
 			&payloads.VerifiedValuePayload{VerificationKind: appdef.VerificationKind_Phone, Entity: q("a", "b"), Field: "phone", Value: 42},
-			&payloads.VerifiedValuePayload{Entity: q("a", "b")}}[v%3]
+			&payloads.VerifiedValuePayload{Entity: q("a", "b")},
+			&payloads.VerifiedValuePayload{VerificationKind: appdef.VerificationKind_EMail, WSID: clusterWSID, ID: 1<<53 + 1, Entity: q("app", "doc"), Field: "n", Value: int64(1<<53 + 1)},
+			&payloads.VerifiedValuePayload{VerificationKind: appdef.VerificationKind_Phone, WSID: math.MaxUint64, ID: 1 << 53, Entity: q("a", "b"), Field: "n", Value: int64(1 << 53)}}[v%5]
 	case "verification":
 		p := &payloads.VerificationPayload{VerifiedValuePayload: payloads.VerifiedValuePayload{VerificationKind: appdef.VerificationKind_EMail, WSID: 1, ID: 2, Entity: q("app", "doc"), Field: "f", Value: "v"}}
 		for i := range p.Hash256 {
@@ -302,6 +354,9 @@ func jvalCoq(v any) string {
 		}
 		if fl < -4e18 {
 			fl = -4e18
+		}
+		if z, ok := new(big.Int).SetString(string(x), 10); ok { // an integer literal: its exact value, whatever its size
+			return fmt.Sprintf("(JNum %s (%s)%%Z)", optZ(err == nil, i), z.String())
 		}
 		return fmt.Sprintf("(JNum %s %s)", optZ(err == nil, i), zc(int64(fl)))
 	case string:
@@ -767,8 +822,11 @@ func run(cs *caseSpec) (coq string, tags []string, key string, nontrivial bool, 
 			tagset["mut:"+cs.Mut.Op] = true
 		}
 		t0abs := kit.Epoch.Add(time.Duration(is.T0)).UnixNano()
-		origin = fmt.Sprintf("(OIssued %s %s %s %s %s %s %d)", kit.Bytes(secret(is.Key)), kit.Bool(tok == issued),
-			bs(is.App), bs(audOf(is.PType)), zc(t0abs), zc(is.Dur), payloadDigest(pl))
+		origin = fmt.Sprintf("(OIssued %s %s %s %s %s %s %d %s)", kit.Bytes(secret(is.Key)), kit.Bool(tok == issued),
+			bs(is.App), bs(audOf(is.PType)), zc(t0abs), zc(is.Dur), payloadDigest(pl), issuedInts(pl))
+		if hasIntAbove2p53(pl) {
+			tagset["payload:int>2^53"] = true
+		}
 		tagset["origin:issued"] = true
 		if tok != issued {
 			tagset["origin:issued-mutated"] = true
@@ -879,6 +937,15 @@ func run(cs *caseSpec) (coq string, tags []string, key string, nontrivial bool, 
 		cs.Obs["issuer_secret_len"] = len(secret(signer))
 	}
 	cs.Obs["validator_secret_len"] = len(valKey)
+	if cs.Issue != nil && tok == issued && hasIntAbove2p53(makePayload(cs.Issue.PType, cs.Issue.PVar)) {
+		want := payloadDigest(makePayload(cs.Issue.PType, cs.Issue.PVar))
+		if (o1.code == "ok" && o1.digest != want) || (o2.code == "ok" && o2.digest != want) {
+			tagset["C14-INT53:issued-integer-above-2^53-came-back-changed"] = true
+		}
+		if cs.Issue.PType == cs.Val.PType && (o1.kind == "EDecode" || o2.kind == "EDecode") {
+			tagset["issued-integer-above-2^53:token-not-decodable"] = true
+		}
+	}
 	anyPanic := o1.code == "panic" || o2.code == "panic" || strings.HasPrefix(authDesc, "panic")
 	if anyPanic {
 		if v.lacksAssertedClaim() {
